@@ -10,6 +10,7 @@ import JumanjiModel.Env.Tetris.DropLemmas
 import JumanjiModel.Env.Tetris.ClearLemmas
 import JumanjiModel.Env.Tetris.StepLemmas
 import JumanjiModel.Env.Tetris.Bounds
+import JumanjiModel.Env.Tetris.EpisodeLemmas
 open Jm Tetris
 
 namespace Props.C04
@@ -124,7 +125,112 @@ theorem tetris_step_eq_spec (cfg : Cfg) (s : State) (hc : Consistent cfg s) (hR 
     (step cfg s (rot : Int) (x : Int) d).2.reward =
       [rewardList.getD (dropSpec cfg s.gridPadded s.tetrominoIndex rot x).2 0] :=
   Tetris.step_eq_spec cfg s hc hR hC rot x d hr hx hd hl
+/-- the reward of a legal step is the documented function `REWARD_LIST[k]` of the number `k` of lines the piece clears
+(computed by the rules: land the piece, count the full lines), `k` is at most 4 and equals the number of lines the
+implementation flags as full -/
+theorem tetris_step_reward_eq_lines (cfg : Cfg) (s : State) (hc : Consistent cfg s) (hR : 4 ≤ cfg.numRows)
+    (hC : 4 ≤ cfg.numCols) (rot x d : Nat) (hr : rot < 4) (hx : x < cfg.numCols) (hd : validDraw d)
+    (hl : legal cfg s rot x) :
+    (step cfg s (rot : Int) (x : Int) d).2.reward =
+      [lineReward (dropSpec cfg s.gridPadded s.tetrominoIndex rot x).2] ∧
+    (dropSpec cfg s.gridPadded s.tetrominoIndex rot x).2 ≤ 4 ∧
+    Jx.countTrue (step cfg s (rot : Int) (x : Int) d).1.fullLines =
+      (dropSpec cfg s.gridPadded s.tetrominoIndex rot x).2 :=
+  Tetris.step_reward_eq_lines cfg s hc hR hC rot x d hr hx hd hl
+
+/-- the documented function: 0, 40, 100, 300, 1200 for 0..4 lines, with increasing increments ("convex") -/
+theorem tetris_lineReward_table : lineReward 0 = 0 ∧ lineReward 1 = 40 ∧ lineReward 2 = 100 ∧ lineReward 3 = 300 ∧
+    lineReward 4 = 1200 ∧
+    ∀ k, k < 3 → lineReward (k + 1) - lineReward k ≤ lineReward (k + 2) - lineReward (k + 1) :=
+  ⟨Tetris.lineReward_values.1, Tetris.lineReward_values.2.1, Tetris.lineReward_values.2.2.1,
+    Tetris.lineReward_values.2.2.2.1, Tetris.lineReward_values.2.2.2.2, Tetris.lineReward_convex⟩
+
+/-- WHOLE EPISODE from any consistent state, for ALL in-spec (rotation, column) actions and ALL next-piece draws,
+played with the L1 `step` until the first LAST time step (`play`; the episode may end because no move is left, the
+time is up, or an illegal action was chosen): the return is the sum over the placed pieces of the documented function
+of the number of lines each cleared (an illegal terminal action pays nothing), and the score is the running sum -/
+theorem tetris_episode_return (cfg : Cfg) (hR : 4 ≤ cfg.numRows) (hC : 4 ≤ cfg.numCols) (s : State)
+    (hc : Consistent cfg s) (as : List (Nat × Nat × Nat)) (hin : InSpec cfg as) :
+    (play cfg s as).ret = ((play cfg s as).lines.map lineReward).sum ∧
+    (∀ k ∈ (play cfg s as).lines, k ≤ 4) ∧
+    (play cfg s as).final.score = s.score + (play cfg s as).ret :=
+  ⟨(Tetris.play_accounting cfg hR hC s hc as hin).1, (Tetris.play_accounting cfg hR hC s hc as hin).2.1,
+    (Tetris.play_accounting cfg hR hC s hc as hin).2.2.1⟩
+
+/-- WHOLE EPISODE cell accounting (`final` = the state after the last legal step):
+filled cells at the end + numCols × lines cleared = filled cells at the start + 4 × pieces placed -/
+theorem tetris_cells_accounting (cfg : Cfg) (hR : 4 ≤ cfg.numRows) (hC : 4 ≤ cfg.numCols) (s : State)
+    (hc : Consistent cfg s) (as : List (Nat × Nat × Nat)) (hin : InSpec cfg as) :
+    cells cfg (play cfg s as).final.gridPadded + cfg.numCols * (play cfg s as).lines.sum =
+      cells cfg s.gridPadded + 4 * (play cfg s as).lines.length :=
+  (Tetris.play_accounting cfg hR hC s hc as hin).2.2.2
+
+/-- … from `reset` (any first piece): filled cells at the end = 4 × pieces placed − numCols × lines cleared, and the
+final score is the return -/
+theorem tetris_cells_accounting_from_reset (cfg : Cfg) (hR : 4 ≤ cfg.numRows) (hC : 4 ≤ cfg.numCols) (d0 : Nat)
+    (hd0 : validDraw d0) (as : List (Nat × Nat × Nat)) (hin : InSpec cfg as) :
+    cells cfg (play cfg (reset cfg d0).1 as).final.gridPadded + cfg.numCols * (play cfg (reset cfg d0).1 as).lines.sum =
+      4 * (play cfg (reset cfg d0).1 as).lines.length ∧
+    (play cfg (reset cfg d0).1 as).final.score = (play cfg (reset cfg d0).1 as).ret ∧
+    (play cfg (reset cfg d0).1 as).ret = ((play cfg (reset cfg d0).1 as).lines.map lineReward).sum := by
+  have h := Tetris.play_accounting cfg hR hC _ (Tetris.reset_consistent cfg hR hC d0 hd0) as hin
+  refine ⟨?_, ?_, h.1⟩
+  · have e : cells cfg (reset cfg d0).1.gridPadded = 0 := Tetris.cells_empty cfg
+    rw [h.2.2.2, e, Nat.zero_add]
+  · rw [h.2.2.1]
+    show (0 : Rat) + _ = _
+    exact Rat.zero_add _
+
+-- 4×4 field: four flat I pieces (rotation 1, column 0) fill and clear a line each: return 4·40, the field ends empty;
+-- a fifth action in column 1 is illegal for the flat I piece: the play ends there and pays nothing more
+example :
+    let as : List (Nat × Nat × Nat) := [(1, 0, 0), (1, 0, 0), (1, 0, 3), (0, 0, 0), (1, 1, 2)]
+    InSpec ⟨4, 4, 30⟩ as ∧ (play ⟨4, 4, 30⟩ (reset ⟨4, 4, 30⟩ 0).1 as).lines = [1, 1, 1, 0] ∧
+    (play ⟨4, 4, 30⟩ (reset ⟨4, 4, 30⟩ 0).1 as).ret = 120 ∧
+    (play ⟨4, 4, 30⟩ (reset ⟨4, 4, 30⟩ 0).1 as).ending = .illegal ∧
+    cells ⟨4, 4, 30⟩ (play ⟨4, 4, 30⟩ (reset ⟨4, 4, 30⟩ 0).1 as).final.gridPadded = 4 := by
+  refine ⟨?_, ?_⟩
+  · intro a ha
+    simp only [List.mem_cons, List.not_mem_nil, or_false] at ha
+    rcases ha with rfl | rfl | rfl | rfl | rfl <;> decide
+  · decide +kernel
 end Props.C09
+
+namespace Props.C10
+/-- the reset state for EVERY grid size ≥ 4 × 4 and EVERY drawn piece index (`jax.random.randint(key, (), 0, 7)`):
+the padded grid is empty and of the configured size, the piece index is below 7, the stored `new_tetromino` (and
+`old_tetromino_rotated`) is rotation 0 of the table entry, the action mask equals the L2 legality of the reset state
+and is not empty, score / reward / step count are 0 — and the state is a consistent start state.
+`tetris.instance` evaluates `InstanceOK` and replays `reset` on every real reset state. -/
+theorem tetris_reset_cert (cfg : Cfg) (hR : 4 ≤ cfg.numRows) (hC : 4 ≤ cfg.numCols) (d : Nat) (hd : validDraw d) :
+    (reset cfg d).1.gridPadded = Jx.Grid.mk (cfg.numRows + 3) (cfg.numCols + 3) 0 ∧
+    (reset cfg d).1.tetrominoIndex = d ∧ (reset cfg d).1.tetrominoIndex < 7 ∧
+    (reset cfg d).1.newTetromino = pieceAt d 0 ∧ (reset cfg d).2.obs.tetromino = pieceAt d 0 ∧
+    (reset cfg d).1.actionMask = legalMask cfg (reset cfg d).1 ∧
+    (reset cfg d).2.obs.actionMask = legalMask cfg (reset cfg d).1 ∧
+    (reset cfg d).1.actionMask.any (fun r => r.any id) = true ∧
+    legal cfg (reset cfg d).1 0 0 ∧
+    (reset cfg d).1.score = 0 ∧ (reset cfg d).1.stepCount = 0 ∧
+    InstanceOK cfg (reset cfg d).1 ∧ Consistent cfg (reset cfg d).1 := by
+  have h := Tetris.reset_instanceOK cfg hR hC d hd
+  refine ⟨rfl, rfl, hd, h.2.2.2.1, h.2.2.2.1, h.2.2.2.2.2.1, h.2.2.2.2.2.1, h.2.2.2.2.2.2.1, ?_, rfl, rfl, h,
+    Tetris.reset_consistent cfg hR hC d hd⟩
+  exact Tetris.legal_on_empty cfg hR hC d
+
+/-- the certificate evaluated on real reset states is exactly the range of the transliterated `reset`, and gives a
+consistent start state -/
+theorem tetris_instance_cert (cfg : Cfg) (hR : 4 ≤ cfg.numRows) (hC : 4 ≤ cfg.numCols) (s : State) :
+    InstanceOK cfg s ↔ ∃ d, validDraw d ∧ (reset cfg d).1 = s :=
+  ⟨fun h => ⟨s.tetrominoIndex, h.2.2.1, Tetris.instance_is_reset cfg hR hC s h⟩,
+   fun ⟨d, hd, e⟩ => e ▸ Tetris.reset_instanceOK cfg hR hC d hd⟩
+
+theorem tetris_instance_consistent (cfg : Cfg) (hR : 4 ≤ cfg.numRows) (hC : 4 ≤ cfg.numCols) (s : State)
+    (h : InstanceOK cfg s) : Consistent cfg s := Tetris.instance_consistent cfg hR hC s h
+
+example : InstanceOK ⟨4, 5, 10⟩ (reset ⟨4, 5, 10⟩ 6).1 ∧
+    (reset ⟨4, 5, 10⟩ 6).1.actionMask = [[true, true, true, true, false], [true, true, true, false, false],
+      [true, true, true, true, false], [true, true, true, false, false]] := by decide +kernel
+end Props.C10
 
 namespace Props.C11
 /-- the step counter grows by one per step and a step is LAST exactly when the action was masked out, no action
